@@ -1487,6 +1487,150 @@ def comp_pair(prop, tier, comp, work):
 
 
 # --------------------------------------------------------------------------------------------
+# R-FOLD (C08): the reduction views fold, accumulator first, over the C-order flattening of exactly the slice
+# index::reduction_slices designates (proved separately by E1), in increasing index order; accumulate folds the
+# prefix [0, s+1) of the axis.  Structural facts of view/ufunc/reduce.hpp and accumulate.hpp (template definitions).
+# --------------------------------------------------------------------------------------------
+def rule_fold(rows, prop):
+    findings, samples, n = [], [], 0
+    fns = [r for r in rows if "fn" in r]
+    by_line = {}
+    for r in fns:
+        by_line[(r["file"], r["line"])] = r
+    def lam(r, expr):
+        m = re.fullmatch(r"lambda@(\d+)\(\)", expr)
+        return by_line.get((r["file"], int(m.group(1)))) if m else None
+    for r in fns:
+        fn = r["fn"]
+        facts = r["facts"]
+        locs = {f["a"]: f["b"] for f in facts if f["k"] == "local"}
+        rets = [f["a"] for f in facts if f["k"] == "return"]
+        if fn == "nmtools::view::reducer_t::operator()":
+            n += 1
+            acc = rets[0][1:] if len(rets) == 1 and rets[0].startswith("%") else None
+            loops = [f for f in facts if f["k"] == "loop"]
+            asg = [f for f in facts if f["k"] == "assign" and f["a"] == "%" + str(acc)]
+            ok = acc and len(loops) == 1 and len(asg) == 1
+            why = ""
+            if ok:
+                m = re.fullmatch(r"\(%(\w+) < %(\w+)\)", loops[0]["b"])
+                iv = m.group(1) if m else None
+                if not m or locs.get(m.group(2)) != "len($array)":
+                    ok = False; why = "loop bound is %s, expected i < len(array)" % loops[0]["b"]
+                elif not re.fullmatch(r"\(%" + iv + r" post\+\+\)|\(\+\+ %" + iv + r"\)", loops[0]["c"]):
+                    ok = False; why = "induction variable is not incremented by one: " + loops[0]["c"]
+                elif asg[0]["b"] != "this.op(%%%s,at($array,%%%s))" % (acc, iv):
+                    ok = False; why = "fold step is %s, expected op(accumulator, element i) with the accumulator first" % asg[0]["b"]
+                else:
+                    start = locs.get(iv); init = locs.get(acc, "")
+                    if not ((init == "$init" and start == "0") or (init == "at($array,0)" and start == "1")):
+                        ok = False; why = "accumulator starts from %s and the loop from %s (expected init/0 or element 0/1)" % (init, start)
+            else:
+                why = "expected one accumulator returned, one loop and one fold step"
+            if not ok:
+                findings.append(finding("R-FOLD.reducer", prop, r, "; ".join("%s=%s" % (f["a"], f["b"]) for f in asg)[:200], why))
+            else:
+                samples.append("R-FOLD reducer: %s = %s" % (asg[0]["a"], asg[0]["b"]))
+        elif re.fullmatch(r"nmtools::view::reduce_t(<.*>)?::operator\(\)", fn) and not r.get("lambda"):
+            n += 1
+            flat = locs.get("flattened", "")
+            full = "none_t" in fn       # specialisation for axis=None: the whole array is folded
+            okc = True; why = ""
+            if full:
+                lf = lam(r, flat)
+                lrets = [f["a"] for f in lf["facts"] if f["k"] == "return"] if lf else []
+                if not lrets or any(x not in ("unwrap(view::flatten((* this.array)))", "unwrap(view::flatten(this.array))") for x in lrets):
+                    okc = False; why = "full reduction does not fold the C-order flattening of the whole array: %s" % lrets
+            else:
+                if flat != "unwrap(view::flatten(%sliced))":
+                    okc = False; why = "folded sequence is %s, expected the C-order flattening of the slice" % flat
+                ls = lam(r, locs.get("sliced", ""))
+                if okc and ls:
+                    sl = {f["a"]: f["b"] for f in ls["facts"] if f["k"] == "local"}
+                    lrets = [f["a"] for f in ls["facts"] if f["k"] == "return"]
+                    want = "index::reduction_slices(%indices_,unwrap(detail::shape<true>(this.array)),this.axis,this.keepdims)"
+                    if sl.get("slices") != want or locs.get("indices_") != "pack_indices($indices...)":
+                        okc = False; why = "slices are %s of %s, expected %s of the packed result index" % (sl.get("slices"), locs.get("indices_"), want)
+                    elif any(x not in ("apply_slice((* this.array),%slices)", "apply_slice(this.array,%slices)") for x in lrets) or not lrets:
+                        okc = False; why = "slice is not taken from the operand array: %s" % lrets
+                elif okc:
+                    okc = False; why = "slice computation not found"
+            lr = lam(r, rets[0]) if len(rets) == 1 else None
+            rr = [f["a"] for f in lr["facts"] if f["k"] == "return"] if lr else []
+            if okc and (not rr or any(x not in ("this.reducer.operator()(%flattened)", "this.reducer.operator()(%flattened,this.initial)") for x in rr)):
+                okc = False; why = "result is not reducer(flattened[, initial]): %s" % rr
+            if not okc:
+                findings.append(finding("R-FOLD.reduce", prop, r, fn.split("::")[-1], why))
+        elif fn == "nmtools::view::accumulate_t::operator()":
+            n += 1
+            okc = True; why = ""
+            if locs.get("start") != "((%i == this.axis) ? 0 : %s)" or locs.get("stop") != "(%s + 1)" or locs.get("s") != "at(%indices_,%i)":
+                okc = False; why = "prefix slice is [%s, %s) with s = %s; expected [i==axis ? 0 : s, s+1) with s = result index i" % (locs.get("start"), locs.get("stop"), locs.get("s"))
+            asg = [f for f in facts if f["k"] == "assign" and f["a"] == "at(%slices,%i)"]
+            if okc and (len(asg) != 1 or asg[0]["b"] != "{%start,%stop}"):
+                okc = False; why = "slice i is not {start, stop}"
+            if okc and (locs.get("flattened") != "unwrap(view::flatten(%sliced))" or rets != ["this.reducer.operator()(%flattened)"]):
+                okc = False; why = "running fold is not reducer(flatten(slice))"
+            if not okc:
+                findings.append(finding("R-FOLD.accumulate", prop, r, "accumulate_t::operator()", why))
+    return findings, n, samples
+
+
+RED_ALIASES = {"sum": ("reduce", "add"), "prod": ("reduce", "multiply"), "cumsum": ("accumulate", "add"), "cumprod": ("accumulate", "multiply")}
+
+def rule_redfwd(rows, prop):
+    """sum / prod / cumsum / cumprod are the add / multiply reduction resp. accumulation with the operands in order"""
+    findings, n = [], 0
+    for r in rows:
+        if "fn" not in r or r.get("lambda"):
+            continue
+        m = re.fullmatch(r"nmtools::view::(sum|prod|cumsum|cumprod)", r["fn"])
+        if not m or os.path.basename(r["file"])[:-4] != m.group(1):
+            continue
+        name = m.group(1); ctor, opname = RED_ALIASES[name]
+        n += 1
+        aliases = {f["a"]: f["b"] for f in r["facts"] if f["k"] == "alias"}
+        named = ["$" + p_["name"] for p_ in r["params"] if p_["name"]]
+        for rt in [f for f in r["facts"] if f["k"] == "return"]:
+            pc = parse_call(rt["a"])
+            if not pc:
+                findings.append(finding("R-REDFWD", prop, r, rt["a"], "does not return a reduction")); continue
+            callee, args = pc
+            if callee in (name, "view::" + name):
+                rest = args
+            elif callee == ctor:
+                opt = re.sub(r"\{.*$", "", args[0]) if args else ""
+                opt = aliases.get(opt, opt)
+                if base_op_name(opt) != opname:
+                    findings.append(finding("R-REDFWD", prop, r, rt["a"], "view::%s folds with op '%s', expected %s" % (name, opt, opname), rt.get("line"))); continue
+                rest = args[1:]
+            else:
+                findings.append(finding("R-REDFWD", prop, r, rt["a"], "view::%s returns %s(...), expected %s(...) or a delegation to itself" % (name, callee, ctor), rt.get("line"))); continue
+            k = len(named)
+            if rest[:k] != named or any(t.startswith("$") for t in rest[k:]):
+                findings.append(finding("R-REDFWD", prop, r, rt["a"], "operands passed %s differ from the parameters in order %s" % (rest, named), rt.get("line")))
+    return findings, n
+
+
+def comp_fold(prop, tier, comp, work):
+    t0 = time.time()
+    tu = os.path.join(work, "umb_ufc2.cpp"); open(tu, "w").write('#include "nmtools/array/view/ufunc.hpp"\n')
+    rows, err, cmd = run_nmlint(tu, filters=["include/nmtools/array/view/ufunc/"])
+    out = dict(broken=[], units=1, functions=len(rows), cmd=cmd)
+    if err:
+        out["broken"].append(err); return out
+    f, n, samples = rule_fold(rows, prop)
+    tu2, nn = gen_umbrella(["nmtools/array/view"], work, "umb_view2.cpp")
+    rows2, err2, _ = run_nmlint(tu2, filters=["include/nmtools/array/view/sum.hpp", "include/nmtools/array/view/prod.hpp", "include/nmtools/array/view/cumsum.hpp", "include/nmtools/array/view/cumprod.hpp"])
+    if err2:
+        out["broken"].append(err2); return out
+    f2, n2 = rule_redfwd(rows2, prop)
+    out["functions"] += len(rows2)
+    out.update(findings=f + f2, instances={"R-FOLD": n, "R-REDFWD": n2}, evaluations=n + n2, distinct_nontrivial=n + n2 - len(f + f2), samples=samples, wall_s=round(time.time() - t0, 2))
+    return out
+
+
+# --------------------------------------------------------------------------------------------
 # driver
 # --------------------------------------------------------------------------------------------
 def run(prop, tier, spec, jobs=16):
@@ -1526,4 +1670,4 @@ def comp_fwd_array(prop, tier, comp, work):
     return out
 
 
-RULES = {"R-FWD.array": comp_fwd_array, "R-FWD.functional": comp_fwd_functional, "R-UFUNC": comp_ufunc, "R-KSIB": comp_ksib, "R-SIMD": comp_simd, "R-CONSTBRANCH": comp_constbranch, "R-TRAITPROV": comp_traitprov, "R-MAYBE-DIV": comp_maybe_div, "R-OWN": comp_own, "R-EVAL": comp_eval, "R-EQSHAPE": comp_eqshape, "R-PAIR": comp_pair}
+RULES = {"R-FWD.array": comp_fwd_array, "R-FWD.functional": comp_fwd_functional, "R-UFUNC": comp_ufunc, "R-KSIB": comp_ksib, "R-SIMD": comp_simd, "R-CONSTBRANCH": comp_constbranch, "R-TRAITPROV": comp_traitprov, "R-MAYBE-DIV": comp_maybe_div, "R-OWN": comp_own, "R-EVAL": comp_eval, "R-EQSHAPE": comp_eqshape, "R-PAIR": comp_pair, "R-FOLD": comp_fold}
